@@ -734,7 +734,9 @@ class Exec:
         ln = loc.get("line")
         if ln is not None:
             self._last_line = ln
-        return "L%s" % getattr(self, "_last_line", "?")
+        if getattr(self, "_last_line", None) is None:
+            return "+?"
+        return "+%d" % (self._last_line - self.info["lines"][0])
 
     def read_lvalue(self, st, lv, where=""):
         if lv[0] == "local":
